@@ -1,0 +1,42 @@
+//go:build verif
+
+// Contracts for package protocol (view states), checked by /verif/govc (comment-only file).
+package protocol
+
+//@ pred vswf(s *ViewStates) = s.blockchain != nil && s.auth != nil && s.auth.blockchain == s.blockchain && cert.awf(s.auth) && s.committedBlock != nil
+
+// The high QC is replaced only by a verified QC whose block has a higher view than the
+// current high QC's view; with the view binding of verified QCs the view of the high QC
+// never decreases.
+//@ func (*ViewStates).UpdateHighQC property C07
+//@   requires vswf(s) && hotstuff.genesisBlock != nil && cert.qcok(s.auth, qc)
+//@   ensures [monotone] s.highQC.view >= old(s.highQC.view)
+//@   ensures [updated] result0 ==> s.highQC == qc && qc.view > old(s.highQC.view)
+//@   ensures [unchanged] !result0 ==> s.highQC == old(s.highQC)
+//@   ensures [inv] vswf(s)
+//@   modifies s.highQC, s.blockchain.blocks[*], s.blockchain.blockAtHeight[*], s.blockchain.pendingFetch[*], s.blockchain.eventLoop.handlers[*], alloc
+
+//@ func (*ViewStates).UpdateHighTC property C07
+//@   ensures [monotone] s.highTC.view >= old(s.highTC.view)
+//@   ensures [max] s.highTC.view == max(old(s.highTC.view), tc.view)
+//@   modifies s.highTC
+
+//@ func (*ViewStates).NextView property C07
+//@   requires s.view < 18446744073709551615
+//@   ensures [step-one] s.view == old(s.view) + 1 && result == s.view
+//@   modifies s.view
+
+//@ func (*ViewStates).View property C07
+//@   ensures [def] result == s.view
+
+//@ func (*ViewStates).HighQC property C07
+//@   ensures [def] result == s.highQC
+
+// The committed block only moves to a block of a higher view.
+//@ func (*ViewStates).UpdateCommittedBlock property C07
+//@   requires block != nil && s.committedBlock != nil && block.view > s.committedBlock.view
+//@   ensures [monotone] s.committedBlock == block && s.committedBlock.view > old(s.committedBlock.view)
+//@   modifies s.committedBlock
+
+//@ func (*ViewStates).CommittedBlock property C07
+//@   ensures [def] result == s.committedBlock
